@@ -52,6 +52,7 @@ pub fn generator(prop: &str) -> Option<Gen> {
         "C04" => Some(gen::gen_c04),
         "C01" => Some(gen::gen_c01),
         "C08" => Some(gen::gen_c08),
+        "C17" => Some(gen::gen_c17),
         _ => None,
     }
 }
@@ -68,6 +69,7 @@ pub fn budget(prop: &str, tier: &str) -> u64 {
         "C04" => 900,
         "C01" => 200,
         "C08" => 300,
+        "C17" => 300,
         "C14" => 3 * 6 * 155 + 200,
         _ => 150,
     };
